@@ -93,7 +93,7 @@ class Ex(StmtMixin, ExprMixin, CallMixin, CompMixin):
     self.builtins = self.make_builtins()
     from engine.values import Builtin
     for k, f in getattr(theory, 'builtin_models', {}).items():
-      self.builtins[k] = Builtin(k, f, needs_ex=True)   # library models specific to this theory (A-LIB)
+      self.builtins[k] = Builtin(k, f, needs_ex=True) if callable(f) else f   # library models specific to this theory (A-LIB)
     self.modcache = {}
     self.obligations = []
     self._seen_obl = set()
@@ -125,6 +125,7 @@ class Ex(StmtMixin, ExprMixin, CallMixin, CompMixin):
     self.obl_count = {}
     self.loop_entry = {}
     self.loop_head = {}
+    self.path_ghosts = {}     # ghost results of callees on this path (also visible when the call sits inside a comprehension)
 
   # -- path condition ---------------------------------------------------------
 
